@@ -336,15 +336,118 @@ def op_noise(fs, d, r, keep_csum):
     return "%d random bytes in metadata block %d" % (n, blk)
 
 
-OPERATORS = [op_bitmap_block, op_bitmap_inode, op_gd_counts, op_gd_location, op_inode_field, op_inode_field,
+def blockmapped_files(fs):
+    return [i for i in regular_files(fs) + directories(fs)
+            if not fs.inode(i)["flags"] & (EXTENTS_FL | INLINE_DATA_FL) and struct.unpack_from("<I", fs.inode(i)["raw"], 40)[0]]
+
+
+def op_block_pointer(fs, d, r, keep_csum, which=None):
+    """a direct block pointer of a block-mapped file at the edges of the legal range"""
+    cands = blockmapped_files(fs)
+    if not cands:
+        return op_extent_edge(fs, d, r, keep_csum, which)
+    ino = r.choice(cands)
+    a = fs.inode_loc(ino) + 40
+    used = [k for k in range(12) if struct.unpack_from("<I", d, a + 4 * k)[0]]
+    k = r.choice(used)
+    v = {"end": fs.blocks_count, "end+1": fs.blocks_count + 1, "max": 0xFFFFFFFF, "first-1": max(fs.first_data_block - 1, 0),
+         "itable": fs.groups[0]["inode_table"]}[which or r.choice(["end", "end", "end+1", "max", "first-1", "itable"])]
+    struct.pack_into("<I", d, a + 4 * k, v)
+    if keep_csum:
+        fix_inode_csum(fs, d, ino)
+    return "inode %d: block pointer %d set to %d (blocks count %d)" % (ino, k, v, fs.blocks_count)
+
+
+def op_extent_edge(fs, d, r, keep_csum, which=None):
+    """a leaf extent ending exactly at / one past the end of the filesystem"""
+    cands = [i for i in regular_files(fs) if fs.inode(i)["flags"] & EXTENTS_FL and not fs.inode(i)["flags"] & INLINE_DATA_FL]
+    cands = [i for i in cands if struct.unpack_from("<HHHH", fs.inode(i)["raw"], 40)[1] > 0 and struct.unpack_from("<HHHH", fs.inode(i)["raw"], 40)[3] == 0]
+    if not cands:
+        return "not applicable"
+    ino = r.choice(cands)
+    a = fs.inode_loc(ino) + 40
+    e = a + 12
+    ln = struct.unpack_from("<H", d, e + 4)[0] & 0x7FFF
+    v = {"end": fs.blocks_count - ln + 1, "end+1": fs.blocks_count, "max": 0xFFFFFFF0, "first-1": 0, "itable": fs.groups[0]["inode_table"]}[which or r.choice(["end", "end+1"])]
+    struct.pack_into("<I", d, e + 8, v & 0xFFFFFFFF)
+    struct.pack_into("<H", d, e + 6, 0)
+    if keep_csum:
+        fix_inode_csum(fs, d, ino)
+    return "inode %d: first extent moved to start %d, length %d (blocks count %d)" % (ino, v, ln, fs.blocks_count)
+
+
+def op_extra_isize(fs, d, r, keep_csum, which=None):
+    """an inode with the smallest extra size that still holds i_checksum_hi (4); optionally only the high half of its checksum is wrong"""
+    if fs.inode_size < 256:
+        return "not applicable"
+    ino = r.choice(regular_files(fs))
+    a = fs.inode_loc(ino)
+    struct.pack_into("<H", d, a + 128, 4)
+    d[a + 132:a + fs.inode_size] = bytes(fs.inode_size - 132)       # no in-inode attributes, no extra timestamps
+    fix_inode_csum(fs, d, ino)
+    if (which or r.choice(["hi", "ok"])) == "hi" and fs.has_csum:
+        if struct.unpack_from("<H", d, a + 130)[0] == 0:
+            return "not applicable"
+        struct.pack_into("<H", d, a + 130, 0)       # the low half stays right whether or not the field itself is covered
+        return "inode %d: i_extra_isize 4, high half of the checksum zeroed" % ino
+    return "inode %d: i_extra_isize 4 (valid)" % ino
+
+
+def op_append_block(fs, d, r, keep_csum, which=None):
+    """one more block, exactly at / just past the end of the filesystem, appended to a file; i_blocks and
+    i_size adjusted so that the out-of-range reference is the only thing wrong"""
+    v = {"end": fs.blocks_count, "end+1": fs.blocks_count + 1}[which or r.choice(["end", "end+1"])]
+    cands = [i for i in blockmapped_files(fs) if fs.inode(i)["mode"] & 0xF000 == 0x8000]
+    ext = [i for i in regular_files(fs) if fs.inode(i)["flags"] & EXTENTS_FL and not fs.inode(i)["flags"] & INLINE_DATA_FL]
+    if cands:
+        for ino in r.sample(cands, len(cands)):
+            a = fs.inode_loc(ino)
+            slots = [struct.unpack_from("<I", d, a + 40 + 4 * k)[0] for k in range(12)]
+            if slots[11] == 0 and slots[0] != 0:
+                k = max(i for i in range(12) if slots[i]) + 1
+                struct.pack_into("<I", d, a + 40 + 4 * k, v)
+                struct.pack_into("<I", d, a + 28, struct.unpack_from("<I", d, a + 28)[0] + fs.bs // 512)
+                struct.pack_into("<I", d, a + 4, (k + 1) * fs.bs)
+                if keep_csum:
+                    fix_inode_csum(fs, d, ino)
+                return "inode %d: block %d appended in slot %d, i_blocks and i_size adjusted (blocks count %d)" % (ino, v, k, fs.blocks_count)
+    for ino in r.sample(ext, len(ext)):
+        a = fs.inode_loc(ino)
+        magic, entries, mx, depth = struct.unpack_from("<HHHH", d, a + 40)
+        if depth == 0 and 0 < entries < mx:
+            last = a + 40 + 12 * entries
+            lblk, ln = struct.unpack_from("<IH", d, last)
+            nl = lblk + (ln & 0x7FFF)
+            struct.pack_into("<IHHI", d, last + 12, nl, 1, 0, v & 0xFFFFFFFF)
+            struct.pack_into("<H", d, a + 42, entries + 1)
+            struct.pack_into("<I", d, a + 28, struct.unpack_from("<I", d, a + 28)[0] + fs.bs // 512)
+            struct.pack_into("<I", d, a + 4, (nl + 1) * fs.bs)
+            fix_inode_csum(fs, d, ino)
+            return "inode %d: extent (lblk %d, start %d, len 1) appended, i_blocks and i_size adjusted (blocks count %d)" % (ino, nl, v, fs.blocks_count)
+    return "not applicable"
+
+
+DIRECTED = [(op_append_block, "end"), (op_append_block, "end+1"), (op_block_pointer, "end"), (op_block_pointer, "end+1"), (op_extent_edge, "end"), (op_extent_edge, "end+1"),
+            (op_extra_isize, "hi"), (op_block_pointer, "first-1"), (op_block_pointer, "itable"), (op_extra_isize, "ok")]
+
+OPERATORS = [op_append_block, op_block_pointer, op_extent_edge, op_extra_isize, op_bitmap_block, op_bitmap_inode, op_gd_counts, op_gd_location, op_inode_field, op_inode_field,
              op_extent, op_extent, op_dirent, op_dirent, op_csum_only, op_noise]
 
 
-def corrupt(base_path, out_path, r, nops=None, operators=None):
-    """applies 1..3 operators; returns the list of their descriptions"""
+def corrupt(base_path, out_path, r, nops=None, operators=None, directed=None):
+    """applies 1..3 operators; returns the list of their descriptions.  directed = k: the k-th boundary operator alone"""
     fs = Fs(base_path)
     d = bytearray(fs.d)
     desc = []
+    if directed is not None:
+        op, which = DIRECTED[directed % len(DIRECTED)]
+        try:
+            desc.append(op(fs, d, r, True, which) + (" (checksums re-computed)" if fs.has_csum and op is not op_extra_isize else ""))
+        except (FormatError, struct.error, IndexError, ValueError) as ex:
+            desc.append("operator %s not applicable: %r" % (op.__name__, ex))
+        with open(out_path, "wb") as f:
+            f.write(d)
+        return desc
     for _ in range(nops or r.choice([1, 1, 1, 2, 2, 3])):
         op = r.choice(operators or OPERATORS)
         keep = r.random() < 0.7
